@@ -167,3 +167,58 @@ def run(ctx, rep) -> None:
                 ok = f.module.name in ("stabilize.handlers.run_task.execution", "stabilize.resilience.process_executor", "stabilize.tasks.registry")
                 rep.check(ok, "C02.R3", f"Task.execute called from {f.module.name}:{f.qualname}", "closed set of execution wrappers", f.file, node.lineno, disc=f"{f.module.name}:{f.qualname}")
     rep.floor("Task.execute call sites", n, 2)
+
+    # ---- R5: a REDIRECT result hands the flow to the jump ----------------------------------------------------------------------------
+    # RunTask commits {JumpToStage, CompleteTask(REDIRECT)} together; their delivery order is free. When CompleteTask(REDIRECT) comes
+    # first, nothing of the abandoned iteration may be continued (no StartTask for the stage's next task, no CompleteStage): the jump
+    # re-arms or closes the stage. So every CompleteTask path that pushes StartTask / CompleteStage has decided "status is not REDIRECT".
+    from ..handlers import registered_handlers
+    from ..paths import BASE, Config, probe
+    rep.rule("C02.R5", "CompleteTask pushes StartTask / CompleteStage only on paths that decided `message.status == REDIRECT` False (a redirecting task's remaining tasks are not started: the JumpToStage committed with it owns the flow, whichever of the two is delivered first)")
+    h_ct = next(h for h in registered_handlers(prog) if h.cls.name == "CompleteTaskHandler")
+    g_txt = "message.status == WorkflowStatus.REDIRECT"
+    cfg = Config(watch=BASE.watch, guards=frozenset({g_txt}), path_cap=30000)
+    pr = probe(ctx, "CompleteTaskHandler:redirect", h_ct.cls.module.name, "CompleteTaskHandler.handle", {"message": ("message", h_ct.message)}, cfg, (h_ct.cls.module.name, "CompleteTaskHandler"))
+    n_r = n_true = 0
+    seen5: set = set()
+    for pi in path_infos({"CompleteTaskHandler": pr}):
+        if pi.outcome != "return":
+            continue
+        decided = [e.get("truth") for e in pi.trace if e.kind == "guard" and g_txt in str(e.get("raw") or e.get("text"))]
+        if decided and decided[-1]:
+            n_true += 1
+        cont = sorted({str(x.get("cls")) for c in pi.seq for x in c.effects if x.kind == "push" and str(x.get("cls")) in ("StartTask", "CompleteStage")})
+        if not cont:
+            continue
+        n_r += 1
+        ok = bool(decided) and decided[-1] is False
+        key = (pi.shape, ok, tuple(decided))
+        if key in seen5:
+            continue
+        seen5.add(key)
+        rep.check(ok, "C02.R5", f"CompleteTask path {pi.shape}", "reached with `status == REDIRECT` decided False" if ok else
+                  f"pushes {cont} " + ("with `status == REDIRECT` decided TRUE" if decided else "without ever testing `status == REDIRECT`") + ": when CompleteTask(REDIRECT) is delivered before the JumpToStage committed with it, "
+                  "the rest of the abandoned iteration is started - and runs again after the jump", pi.where()[0], pi.where()[1], disc=f"redirect-continues:{pi.shape}")
+    rep.floor("CompleteTask paths that continue the stage", n_r, 2)
+    rep.floor("CompleteTask paths taken for a REDIRECT result", n_true, 1)
+
+    # ---- R6: what a stage inherits does not depend on which branch finished first ---------------------------------------------------------
+    # The ancestor merge may depend on the graph (ref ids, requisites) and on the outputs only. A run-time column that differs between
+    # delivery schedules (end_time, start_time, status, version ...) in the query that feeds the merge makes the winner of a key written
+    # by two parallel branches depend on the order in which their messages happened to be delivered.
+    import re as _re
+    from .. import sqlshape as _sq
+    rep.rule("C02.R6", "get_merged_ancestor_outputs reads only schedule-independent columns (ref_id, requisite_stage_ref_ids, outputs): the order in which parallel ancestors are merged cannot depend on completion times / statuses")
+    STATIC_COLS = {"ref_id", "requisite_stage_ref_ids", "outputs", "id", "parent_stage_id", "synthetic_stage_owner", "execution_id", "name", "type"}
+    impls = [f for f in prog.all_functions() if f.qualname == "get_merged_ancestor_outputs" and f.module.name.startswith("stabilize.persistence") and (rep.tier == "thorough" or "postgres" not in f.module.name)]
+    n6 = 0
+    for f in impls:
+        for s_ in [x for x in _sq.statements(prog) if x.func is f and x.kind == "SELECT"]:
+            m_ = _re.search(r"select\s+(.*?)\s+from\s", " ".join(s_.text.split()), flags=_re.I | _re.S)
+            cols = [c.strip().split(" as ")[0].split(".")[-1].lower() for c in m_.group(1).split(",")] if m_ else ["?"]
+            n6 += 1
+            extra = sorted(c for c in cols if c not in STATIC_COLS)
+            rep.check(not extra, "C02.R6", f"{f.module.name.split('.')[-2]}: columns read for the ancestor merge", f"{cols}" + ("" if not extra else
+                      f": {extra} differ between delivery schedules - if they order the merge, the value a join stage inherits for a key written by two parallel branches depends on which branch's messages were delivered first"),
+                      s_.file, s_.line, disc=f"merge-columns:{f.module.name.split('.')[-2]}:{'+'.join(extra)}")
+    rep.floor("SELECTs feeding the ancestor merge", n6, 1)
